@@ -43,7 +43,14 @@ pub fn gen_deviation(rng: &mut Rng, other_addr: u16) -> Reply {
         5 => Reply::ForeignThenFaithful(if rng.bool() { other_addr } else { 9999 }),
         6 | 7 => Reply::Flags((rng.below(16) as u8) << 4),
         8 => Reply::Func(*rng.pick(&[130u8, 131, 0, 1, 128])),
-        9 => Reply::Iin(0, *rng.pick(&[0x01u8, 0x02, 0x04])),
+        9 => {
+            let bit = *rng.pick(&[0x01u8, 0x02, 0x04]);
+            if rng.chance(1, 3) {
+                Reply::IinCon(0, bit)
+            } else {
+                Reply::Iin(0, bit)
+            }
+        }
         10 => Reply::Truncate(rng.urange(1, 12)),
         11 => Reply::Objects(vec![30, 1, 0x00, 5, 3]),
         12 => {
